@@ -52,9 +52,11 @@ func ResolvedReporting(t *Truth) *Report {
 				}
 			} else {
 				rep.Counters["firing_listed"]++
-				// frozen at flush time: must have been possibly firing at some instant of [tick, start]
+				// frozen at flush time: must have been possibly firing at some instant of [tick, start];
+				// a submission that the scenario's yield hooks were still holding in the ingestion path at
+				// the tick is not yet known to the group
 				poss := false
-				for _, x := range t.Samples(a.Tick, a.Start) {
+				for _, x := range t.Samples(a.Tick.Add(-t.IngestLag()), a.Start) {
 					if r.Alerts.PossiblyFiring(k, x) {
 						poss = true
 					}
